@@ -62,7 +62,7 @@ fn program(blocks: &[Block], store: &[Utxo], collateral: Option<i64>, names: &[S
     }
     Program {
         parties: vec!["Owner".into(), "Dest".into()],
-        assets: vec![Asset { name: "Tok".into(), policy: TOK_POLICY.to_vec(), asset_name: b"TK".to_vec(), name_as_string: true }],
+        assets: vec![Asset { name: "Tok".into(), policy: TOK_POLICY.to_vec(), asset_name: b"TK".to_vec(), name_as_string: true, raw_policy: None, raw_asset_name: None }],
         txs: vec![TxDef {
             name: "spend".into(),
             inputs,
